@@ -169,6 +169,12 @@ native_unit("fft_native", "winter-prover", "prover", "native/fft_bounded.rs", ["
             "NATIVE EXECUTION, not a proof: sizes 2^1..2^10 (2^12 thorough) x 3 coefficient shapes x offsets {1, generator, seeded} x blowups {1, 2, 4, 8, 16, 128} with size * blowup <= 2^13 (2^15 thorough); f64, f128, f62, their quadratic extensions, cubic extensions of f64 / f62; matrices of 8 / 64 / 512 rows with 1..255 columns over f64, f128 and extensions, LDE domains with offsets {generator, seeded, 1, -1} x blowups {2, 4, 8, 16}; without the `concurrent` feature",
             timeout=2400)
 
+native_unit("fft_native_concurrent", "winter-prover", "prover", "native/fft_bounded.rs", ["C09"],
+            ["fft::{evaluate_poly, evaluate_poly_with_offset, interpolate_poly, interpolate_poly_with_offset, get_twiddles, get_inv_twiddles, infer_degree, permute_index}", "fft::serial / fft_inputs", "ColMatrix::{interpolate_columns, evaluate_columns_over}", "RowMatrix::evaluate_polys_over (segment width 8)", "matrix::{build_segments, get_evaluation_offsets, Segment}", "StarkDomain::from_twiddles"],
+            "the fast transforms return exactly the direct evaluations at offset * w^i in natural order (direct evaluation written in the stand-in), interpolation inverts them, degree inference reports the true degree, and the column-batched / segmented LDE of a matrix equals direct evaluation of every column polynomial; permute_index is the bit reversal",
+            "NATIVE EXECUTION, not a proof: sizes 2^1..2^10 (2^12 thorough) x 3 coefficient shapes x offsets {1, generator, seeded} x blowups {1, 2, 4, 8, 16, 128} with size * blowup <= 2^13 (2^15 thorough); f64, f128, f62, their quadratic extensions, cubic extensions of f64 / f62; matrices of 8 / 64 / 512 rows with 1..255 columns over f64, f128 and extensions, LDE domains with offsets {generator, seeded, 1, -1} x blowups {2, 4, 8, 16}; built WITH the `concurrent` cargo feature of /repo (the rayon code paths of math/src/fft/concurrent.rs, utils iterators and the prover matrices, taken from 1024 elements on; 16 rayon threads; thorough tier only)",
+            timeout=2400, features="concurrent", tier="thorough", env={"RAYON_NUM_THREADS": "16"})
+
 kani_unit("fft_index", "winter-math", "math/src/fft/mod.rs", "kani/math_fft.rs", "fft", [
     H("fft_permute_index_contract", ["C09"], ["fft::permute_index"],
       "forall k <= 63, i < 2^k: permute_index(2^k, i) < 2^k, is the k-bit reversal of i (bit b == bit k-1-b of i), and permute_index(2^k, .) is an involution"),
